@@ -162,9 +162,17 @@ def generate(repo):
 
     def expose():
         fn = get_def(dt, 'Detector.expose')
-        adc, cast, lets, res, _ = expose_items(fn)
+        adc, cast, lets, res, rest = expose_items(fn)
         if adc is None:
             raise Untranslatable('adc_cap not found')
+        # everything after the cast must be shape handling, the optional look-up table and the return: no further arithmetic
+        for st in rest:
+            src = ast.unparse(st)
+            if src.startswith('output = output.reshape(') or src == 'return output' \
+                    or src == 'if self.lut is not None:\n    output = apply_lut(output, self.lut)' \
+                    or (src.startswith('if frames == 1:\n    output = output[0') and len(st.body) == 1 and not st.orelse):
+                continue
+            raise Untranslatable(f'statement after the integer cast: {src[:60]}')
         body = '\n  '.join(lets + [res])
         return (f'def adcCap (bits : Int) : Int := {adc}\n\n'
                 f'def castBits (bits : Int) : Int := {cast}\n\n'
